@@ -103,13 +103,17 @@ def c13(c):
                    "MPI is the in-process thread shim (shim/mpi.h); real mpirun is exercised by C04"],
       exhaustive=False)
 def c16(c):
-    progs = [dict(src='c16_split.cpp', build='asan', shards={'quick': 4, 'thorough': 8}, extra_inc=SHIM, libs=['-pthread'])]
+    progs = [dict(src='c16_split.cpp', build='asan', shards={'quick': 4, 'thorough': 8}, extra_inc=SHIM, libs=['-pthread']),
+             # one iteration of 2^32+5 (mpi_plain) / 2^31+6 (mpi_vegas, mpi_multi_channel) calls on 7 ranks, optimised build, nothing stored per call
+             dict(src='c16_split.cpp', build='plain', shards={'quick': 3, 'thorough': 3}, extra_inc=SHIM, libs=['-pthread'],
+                  variants=[('float.huge', ['-DVF_T=float', '-DVF_HUGE'])])]
     if c.tier == 'thorough':
         progs.append(dict(src='c16_split.cpp', build='tsan', shards={'quick': 4, 'thorough': 8}, extra_inc=SHIM, libs=['-pthread'],
                           variants=[('double', ['-DVF_T=double'])]))
     c.std(progs)
     c.extra['exhaustive_box'] = 'total 0..512 x world 1..64 x all ranks enumerated completely for discard_before/discard_after'
-    for k in ('triples_checked', 'exhaustive_box_pairs', 'seeded_pairs', 'shim_runs', 'rank_shares_observed', 'shim_collectives'):
+    for k in ('triples_checked', 'exhaustive_box_pairs', 'seeded_pairs', 'shim_runs', 'rank_shares_observed', 'shim_collectives', 'huge_runs',
+              'multi_channel_runs_with_map_dimensions_differing_from_dimensions'):
         c.require(k)
 
 
@@ -173,7 +177,8 @@ def c17(c):
            dict(src='c17_protocol.cpp', build='clang', shards={'quick': 1, 'thorough': 5}, tiers=('thorough',))])
     for k in ('calls_checked', 'map_coordinate_calls', 'map_density_calls', 'density_calls_inside_integrand', 'density_calls_after_integrand',
               'zero_valued_calls', 'non_zero_calls', 'weight_requesting_calls', 'extreme_zero_coordinates', 'extreme_max_coordinates',
-              'scripted_runs', 'random_runs', 'canonical_number_exactly_one'):
+              'scripted_runs', 'random_runs', 'canonical_number_exactly_one', 'vegas_points_sampled_in_a_zero-width_bin',
+              'scripted_vegas_numbers_next_to_a_bin_edge'):
         c.require(k)
 
 
@@ -377,7 +382,7 @@ def c20(c):
                    "MPI runs use the in-process shim; per-rank call logs are concatenated in rank order (contiguity is C16's business)"])
 def c19(c):
     c.std([dict(src='c19_state.cpp', build='asan', shards={'quick': 5, 'thorough': 5}, extra_inc=SHIM, libs=['-pthread'])])
-    for k in ('first_states_checked', 'state_transitions_checked', 'coordinates_predicted', 'channels_predicted', 'runs_serial', 'runs_resumed', 'runs_mpi', 'runs_mpi-resumed', 'runs_rolled-back-and-rerun'):
+    for k in ('first_states_checked', 'state_transitions_checked', 'coordinates_predicted', 'channels_predicted', 'runs_serial', 'runs_resumed', 'runs_mpi', 'runs_mpi-resumed', 'runs_rolled-back-and-rerun', 'runs_started_from_a_reloaded_never-run_checkpoint'):
         c.require(k)
 
 
